@@ -87,6 +87,7 @@ Definition f_action (s : fst) (a : saction) : fst :=
   | SIo _ _ _ _ => s       (* not part of the fallback scripts *)
   | SErrno _ => s
   | SNop => s
+  | SStop => s             (* not part of the fallback scripts *)
   end.
 
 Definition f_actions (s : fst) (l : list saction) : fst := fold_left f_action l s.
